@@ -228,10 +228,12 @@ Definition ghost_frame : frame :=
   {| f_addr := 0; f_start := 0; f_end := 0; f_flags := noflags; f_depth := 0;
      sv_depth := 0; sv_max := 0; sv_time := 0; sv_size := 0; f_ghost := true |}.
 
-(* TRIGGER_FL_FILTER | DEPTH | TIME_FILTER | SIZE_FILTER: the trigger changes the per-thread filter state *)
+(* TRIGGER_FL_FILTER | DEPTH | TIME_FILTER | SIZE_FILTER | FINISH (REJECTED_ENTRY_FLAGS): the trigger changes the per-thread
+   filter state, or is the finish trigger which mcount_entry_filter_record carries out: a rejected function with such a
+   trigger keeps a shadow-stack entry on the -pg shape as well *)
 Definition state_trig (tr : trig) : bool :=
   match t_filter tr, t_depth tr, t_time tr, t_size tr with
-  | None, None, None, None => false
+  | None, None, None, None => t_finish tr
   | _, _, _, _ => true
   end.
 
@@ -380,6 +382,46 @@ Definition dstep (c : cfg) (d : dstate) (e : ev) : dstate :=
   | ForkChild => (do_fork_child s, hk)
   end.
 Definition exec (c : cfg) (es : list ev) (d : dstate) : dstate := fold_left (dstep c) es d.
+
+(* ---------------------------------------------------------------- the finish trigger
+   mcount_entry_filter_record: `if (tr->flags & TRIGGER_FL_FINISH) { record_trace_data(mtdp, rstack, NULL);
+   mcount_finish_trigger(); return; }` - carried out for every function that gets a shadow-stack entry (accepted, or
+   rejected with a frame kept), recorded or not, whatever the trace switch says; the thread is then dead
+   (mcount_unguard_recursion -> mtd_dtor: return addresses restored, buffers finished), nothing else is recorded. *)
+Definition finish_fires (c : cfg) (s0 : st) (a : N) : bool :=
+  let '(_, v, tr, _) := entry_check c s0 a in
+  match v with V_RSTACK => false | _ => t_finish tr && hooked c s0 a end.
+
+(* the entry that finishes: the frame as mcount_entry_filter_record has flagged it so far (no DISABLED mark yet, the
+   record index not advanced) is handed to record_trace_data: pending ENTRY records of the ancestors, then its own *)
+Definition finish_enter (c : cfg) (s0 : st) (a t : N) : st :=
+  let '(s, v, tr, sv) := entry_check c s0 a in
+  let cyg := match shp c with CYG => true | PG => false end in
+  let rej := match v with V_IN => false | _ => true end in
+  let fr := {| f_addr := a; f_start := if rej then 0 else t; f_end := 0;
+               f_flags := {| norecord := rej; notrace := false; filtered := false; written := false;
+                             disabled := false; ftrace := false; fcaller := false; cygprof := cyg |};
+               f_depth := ridx s; sv_depth := 0; sv_max := 0; sv_time := 0; sv_size := 0; f_ghost := false |} in
+  (* entry_record with the trace switch taken as on pushes exactly the frame flagged so far *)
+  let s1 := entry_record c (with_fc s (fc s) true) fr tr sv in
+  match stack s1 with
+  | [] => s1
+  | top :: anc =>
+      let '(top', anc', recs) := record_trace_data top anc in
+      {| fc := fc s1; enabled := enabled s; cached := cached s; stack := top' :: anc'; ridx := ridx s;
+         out := out s ++ recs; warned := warned s |}
+  end.
+
+Definition fstate := (st * list bool * bool)%type.        (* + this thread has finished *)
+Definition fstep (c : cfg) (d : fstate) (e : ev) : fstate :=
+  let '(s, hk, dead) := d in
+  if dead then d
+  else match e with
+       | Enter a t => if finish_fires c s a then (finish_enter c s a t, hk, true)
+                      else let '(s', hk') := dstep c (s, hk) e in (s', hk', false)
+       | _ => let '(s', hk') := dstep c (s, hk) e in (s', hk', false)
+       end.
+Definition exec_f (c : cfg) (es : list ev) (d : fstate) : fstate := fold_left (fstep c) es d.
 
 Definition hooked_legacy (c : cfg) (s : st) (a : N) : bool :=
   match shp c with
